@@ -462,7 +462,7 @@ example : AllocsOK demo.mem 0x1000#64 demo.allocs := by
   · intro g hg; simp at hg
 
 example : ParentFlagsOK 3#64 ∧ PageShape [0, 0] true (2^21) ∧ IdxOK [0, 0] :=
-  ⟨⟨by decide, by decide, by decide⟩, .s2m 0 0, by intro j h; simp at h; omega⟩
+  ⟨⟨by decide, by decide⟩, .s2m 0 0, by intro j h; simp at h; omega⟩
 
 /-- 2 MiB page into the empty hierarchy: two allocator requests, each followed by the link and the
 512 zeroing writes, then the slot is read and the leaf written — 2·(1+1+1+512) + 2 events. -/
